@@ -102,4 +102,34 @@ PROPS = {
         "assumptions": COMMON_ASSUME,
         "outside": "descriptor / mapping counts of a real process (fs.Mem handles only), growth over unbounded histories (bounded histories only), Backup after compaction (see C12)",
     },
+    "C03": {
+        "quick": [
+            {"harness": "H_C03_q", "cases": list(range(7)), "scale": SC},
+            {"harness": "H_C03_tear", "cases": list(range(7)), "scale": SC},
+        ],
+        "thorough": [
+            {"harness": "H_C03_t", "cases": list(range(7)), "scale": SC},
+            {"harness": "H_C03_tear", "cases": list(range(7)), "scale": SC},
+        ],
+        "covers": {"quick": ["C03.done", "C03.crash-inside-operation", "C03.crash-between-operations", "crash.torn-write", "crash.before-fs-call"]},
+        "bounds": {"quick": "2 keys; prefix of puts, then 2 symbolic steps from {put, delete, compact, sync, close+open}; crash point = every mutating file-system call of those steps (fork per call) plus 'dies between operations'; data writes torn at every 512-aligned offset inside the write (300-byte values so that records straddle sectors); then recovering Open and comparison with the reference before OR after the operation in flight",
+                   "thorough": "3 symbolic steps"},
+        "assumptions": COMMON_ASSUME + ["process-crash model of the property: returned calls fully applied, directory operations atomic, data writes sector-atomic; implemented by a harness FileSystem wrapped around fs.Mem"],
+        "outside": "more than 2 keys / 3 steps after the prefix, tears inside index buckets (512-byte aligned writes are atomic in the model), crashes in later epochs (C04)",
+    },
+    "C04": {
+        "quick": [
+            {"harness": "H_C04_q", "cases": list(range(5)), "scale": SC},
+            {"harness": "H_C04_tear", "cases": list(range(5)), "scale": SC},
+        ],
+        "thorough": [
+            {"harness": "H_C04_t", "cases": list(range(5)), "scale": SC},
+            {"harness": "H_C04_tear", "cases": list(range(5)), "scale": SC},
+        ],
+        "covers": {"quick": ["C04.done", "C04.crash-during-recovery", "C04.epoch1-torn-write"]},
+        "bounds": {"quick": "2 keys; epoch 1 = prefix + 1 operation cut by a crash at any mutating FS call (torn writes included); epoch 2 = recovering Open cut by a second crash at any of its FS calls, or not; epoch 3 = 1 acknowledged operation then process death; final recovery and a further recovery from the same image",
+                   "thorough": "2 acknowledged operations in epoch 3"},
+        "assumptions": COMMON_ASSUME + ["process-crash model as C03"],
+        "outside": "more than 3 crash epochs, compaction inside the recovered session (covered for single sessions by C05)",
+    },
 }
